@@ -1,7 +1,10 @@
 package main
 
 import (
+	"bufio"
 	"bytes"
+	"io"
+	"testing/iotest"
 	"encoding/binary"
 	"fmt"
 	"os"
@@ -214,6 +217,40 @@ func c18EvalOption(c *Ctx, cs Case) {
 		c.Fail(Failure{Kind: "property", What: "load option decoding panicked: " + pmsg, Case: cs, Go: goObs})
 		return
 	}
+	// the device path decoder takes an io.Reader: what it returns must not depend on how the reader hands out
+	// the bytes (one at a time, half of what is asked for, the last ones together with io.EOF, small buffers)
+	if err == nil && len(lo.FilePath) > 0 {
+		if off := loadOptionPathOffset(b); off > 0 && off < len(b) {
+			pathBytes := b[off:]
+			ref, rerr := device.ParseDevicePath(bytes.NewReader(pathBytes))
+			if rerr == nil {
+				refStr := nodesStr(ref)
+				for _, kind := range []string{"one-byte", "half", "data-err", "bufio-16"} {
+					var rd io.Reader
+					switch kind {
+					case "one-byte":
+						rd = iotest.OneByteReader(bytes.NewReader(pathBytes))
+					case "half":
+						rd = iotest.HalfReader(bytes.NewReader(pathBytes))
+					case "data-err":
+						rd = iotest.DataErrReader(bytes.NewReader(pathBytes))
+					default:
+						rd = bufio.NewReaderSize(iotest.HalfReader(bytes.NewReader(pathBytes)), 16)
+					}
+					var got []device.EFIDevicePaths
+					var gerr error
+					if pan, msg := safely(func() { got, gerr = device.ParseDevicePath(rd) }); pan {
+						c.Fail(Failure{Kind: "property", What: "ParseDevicePath panicked through a " + kind + " reader: " + msg, Case: cs})
+						continue
+					}
+					c.Count(cs.Key()+"|reader|"+kind, true, "path-reader/"+kind)
+					if gerr != nil || nodesStr(got) != refStr {
+						c.Fail(Failure{Kind: "property", Matcher: "c18.reader_kind", What: "ParseDevicePath decodes the same bytes differently through a " + kind + " reader than from memory", Case: cs, Go: clip(fmt.Sprint(gerr, " ", nodesStr(got))), Spec: clip(refStr)})
+					}
+				}
+			}
+		}
+	}
 	if want != "" {
 		if goObs != "ok "+want {
 			matcher := ""
@@ -223,6 +260,24 @@ func c18EvalOption(c *Ctx, cs Case) {
 			c.Fail(Failure{Kind: "property", Matcher: matcher, What: "decoded load option differs from the fields it was built from (or a node's text form is not the UEFI one)", Case: cs, Go: clip(goObs), Spec: clip("ok " + want)})
 		}
 	}
+}
+
+func nodesStr(ps []device.EFIDevicePaths) string {
+	var xs []string
+	for _, p := range ps {
+		xs = append(xs, goNodeStr(p))
+	}
+	return strings.Join(xs, "|")
+}
+
+// loadOptionPathOffset: where the device path list starts (attributes 4, length 2, NUL-terminated UTF-16 description)
+func loadOptionPathOffset(b []byte) int {
+	for i := 6; i+1 < len(b); i += 2 {
+		if b[i] == 0 && b[i+1] == 0 {
+			return i + 2
+		}
+	}
+	return -1
 }
 
 func c18Eval(c *Ctx, cs Case) {
